@@ -9,7 +9,9 @@ ms = sys.argv[2:] or sorted(d for d in os.listdir(src) if os.path.isdir(os.path.
 wt = f"/tmp/wt/confirm_{prop}"
 subprocess.run(["git", "-C", "/repo", "worktree", "remove", "--force", wt], capture_output=True)
 subprocess.run(["git", "-C", "/repo", "worktree", "add", "-q", "--detach", wt, "HEAD"], check=True)
-env = dict(os.environ, PYTHONPATH=f"{wt}/src")
+# HYPOTHESIS_PROFILE=ci is the repository's own profile (tests/conftest.py): it only relaxes the 200 ms per-example deadline,
+# which otherwise produces DeadlineExceeded flakes whenever the machine is loaded
+env = dict(os.environ, PYTHONPATH=f"{wt}/src", HYPOTHESIS_PROFILE="ci")
 def run(cmd, **k):
     return subprocess.run(cmd, capture_output=True, text=True, cwd=wt, env=env, **k)
 try:
@@ -66,7 +68,7 @@ try:
                 meta = {"property": prop, "note": f"agent meta unreadable: {e}"}
             meta["confirmed_by_me"] = {"worktree": "scratch worktree of /repo HEAD " + subprocess.run(["git", "-C", "/repo", "rev-parse", "--short", "HEAD"], capture_output=True, text=True).stdout.strip(),
                                        "demo_clean_exit": out["demo_clean_exit"], "demo_mutated_exit": out["demo_mutated_exit"],
-                                       "suite_cmd": "PYTHONPATH=<wt>/src /venv/bin/python -m pytest -q -p no:cacheprovider --timeout=900 -n 8 tests --deselect tests/test_version.py::test_version  (test_version needs the untracked generated _version.py, absent in worktrees)",
+                                       "suite_cmd": "HYPOTHESIS_PROFILE=ci PYTHONPATH=<wt>/src /venv/bin/python -m pytest -q -p no:cacheprovider --timeout=900 -n 8 tests --deselect tests/test_version.py::test_version  (test_version needs the untracked generated _version.py, absent in worktrees)",
                                        "suite_result": tail}
             json.dump(meta, open(os.path.join(dst, "meta.json"), "w"), indent=1)
         print(json.dumps(out), flush=True)
